@@ -195,8 +195,13 @@ def lightswitch_rules(prog, chk, pid):
             fr = [f for f in lk.ctx if f[0] == "if"]
             good = len(fr) == 1 and fr[0][2] is True
             if good:
-                r = rel(fr[0][1], True)
-                good = r[0] == "rel" and r[1] == "Eq" and any(is_const(x) and cval(x) == thresh and not isinstance(cval(x), bool) for x in (r[2], r[3])) and any(unsnap(x) is v for x in (r[2], r[3]))
+                # the test, a term over the new counter value, is true for exactly the threshold (`c == 0`, `not c`, `c < 1` with c >= 0 are the same test)
+                from bfsa.evalterm import NoEval, eval_term
+
+                try:
+                    good = all(bool(eval_term(fr[0][1], {v.uid: n})) == (n == thresh) for n in range(0, 6))
+                except NoEval:
+                    good = False
             if not good:
                 ok, why = False, "outer lock is not %sd exactly when the counter is %d after the update" % (lockop, thresh)
         chk.require(ok, P("lightswitch-" + meth), fi.qualname, "mutex; counter %+d; if counter == %d: lock.%s(); release mutex" % (delta, thresh, lockop), where,
